@@ -13,6 +13,12 @@ from ..core import require, must_return
 env.import_phylib()
 from phylib.utils import event as ev  # noqa: E402
 
+def _dec(v):
+    if isinstance(v, dict) and '$t' in v:
+        return tuple(_dec(x) for x in v['$t'])
+    return v
+
+
 ID = 'C19'
 LEVEL = 'exploration'
 RULE = (
@@ -170,8 +176,8 @@ class EmitterInterp(object):
     def _emit(self, op):
         event, sk = op['event'], op['sender']
         sender = self._sender(sk)
-        args = tuple(op['args'])
-        kwargs = dict(op['kwargs'])
+        args = tuple(_dec(a) for a in op['args'])
+        kwargs = {k: _dec(v) for k, v in op['kwargs'].items()}
         call_kwargs = dict(kwargs)
         if op['single']:
             call_kwargs['single'] = True
@@ -349,7 +355,11 @@ def check(case):
 # ---------------------------------------------------------------------------------------------
 
 _Base = core.make_trace_machine_base()
-_small = st.integers(-2, 5) | st.sampled_from(['x', 'yy']) | st.none()
+# arguments are arbitrary objects: tuples (written {'$t': [...]} in the JSON trace), lists, dicts,
+# strings with formatting characters
+_small = st.integers(-2, 5) | st.sampled_from(['x', 'yy', '100%', '%s %d', '{}']) | st.none() | \
+    st.sampled_from([{'$t': []}, {'$t': [1]}, {'$t': [1, 'a']}, {'$t': [0, 1, 2]}, [3, 4], [],
+                     {'a': 1}, 2.5])
 _kwargs = st.dictionaries(st.sampled_from(['k', 'end', 'n']), _small, max_size=2)
 
 
